@@ -256,6 +256,7 @@ func (w *Workceptor) AllocateUnit(workTypeName string, params map[string]string)
 	if err != nil {
 		return nil, err
 	}
+	verifCrashPoint("alloc.mkdir")
 	worker := wt.newWorkerFunc(nil, w, ident, workTypeName)
 	err = worker.SetFromParams(params)
 	if err == nil {
@@ -264,6 +265,7 @@ func (w *Workceptor) AllocateUnit(workTypeName string, params map[string]string)
 	if err != nil {
 		return nil, err
 	}
+	verifCrashPoint("alloc.saved")
 	w.activeUnits[ident] = worker
 
 	return worker, nil
